@@ -77,6 +77,7 @@ class MyObject(impl.PVLObject):
 
 REALS = ["1.50", "0.10", "1.0E3", "-2.50", "+.5", "1.", "100.000"]
 INTS = ["7", "-3", "16#FF#", "0"]
+STRS = ["abc", '"N/A"']        # a text value may carry units too (PVL): the quantity class applies to it as well
 
 POSITIONS = [
     ("top", "k = {v}\n", 0),
@@ -136,7 +137,7 @@ def composed_positions(depth):
 
 
 ALT = {"1.50": "1.5", "0.10": "0.100", "1.0E3": "1000.0", "-2.50": "-2.5", "+.5": "0.50", "1.": "1", "100.000": "100",
-       "7": "7.0", "-3": "-3.00", "16#FF#": "255.0", "0": "0.0"}
+       "7": "7.0", "-3": "-3.00", "16#FF#": "255.0", "0": "0.0", "abc": '"abc"', '"N/A"': "'N/A'"}
 # third field: 0 = all dialects; 1 = not ODL/PDS3 (ODL has no such construct); 2 = only where a
 # quantity is hashable (default Quantity is a namedtuple: fine; RecQ defines __hash__)
 
@@ -159,17 +160,34 @@ def parser_for(d, real, qty, cont):
     if d == "ISIS":
         g = impl.ISISGrammar()
         return impl.OmniParser(grammar=g, decoder=impl.OmniDecoder(grammar=g, quantity_cls=q_cls, real_cls=real_cls), **kw)
+    # grammar and decoder built separately (the decoder keeps the grammar it builds for itself)
+    if d == "PVLsep":
+        return impl.PVLParser(grammar=impl.PVLGrammar(), decoder=impl.PVLDecoder(quantity_cls=q_cls, real_cls=real_cls), **kw)
+    if d == "ODLsep":
+        return impl.ODLParser(grammar=impl.ODLGrammar(), decoder=impl.ODLDecoder(quantity_cls=q_cls, real_cls=real_cls), **kw)
+    if d == "PDS3sep":
+        return impl.ODLParser(grammar=impl.PDSGrammar(), decoder=impl.PDSLabelDecoder(quantity_cls=q_cls, real_cls=real_cls), **kw)
+    if d == "ISISsep":
+        return impl.OmniParser(grammar=impl.ISISGrammar(), decoder=impl.OmniDecoder(quantity_cls=q_cls, real_cls=real_cls), **kw)
     return None      # OMNI goes through pvl.loads(), see load()
 
 
+FAMILIES = tuple(impl.DIALECTS) + ("PVLsep", "ODLsep", "PDS3sep", "ISISsep", "OMNIsep", "OMNIbytes")
+
+
 def load(d, text, real, qty, cont):
-    if d == "OMNI":
+    if d in ("OMNI", "OMNIsep", "OMNIbytes"):
         import pvl
         real_cls = {"float": None, "Decimal": Decimal, "Rec": Rec, "Txt": Txt}[real]
         q_cls = {"Quantity": None, "RecQ": RecQ}[qty]
         kw = {}
         if cont:
             kw = dict(module_class=MyModule, group_class=MyGroup, object_class=MyObject)
+        if d == "OMNIsep":
+            return pvl.loads(text, grammar=impl.OmniGrammar(),
+                             decoder=impl.OmniDecoder(quantity_cls=q_cls, real_cls=real_cls), **kw)
+        if d == "OMNIbytes":
+            text = text.encode("utf-8")
         return pvl.loads(text, decoder=impl.OmniDecoder(quantity_cls=q_cls, real_cls=real_cls), **kw)
     return parser_for(d, real, qty, cont).parse(text)
 
@@ -244,7 +262,8 @@ def walk(v, real, qty, cont, spelled, problems, path, top=False, key=None):
 
 
 def spelled_is_real(s):
-    return ("." in s or "E" in s) and "#" not in s
+    import re
+    return bool(re.fullmatch(r"[+-]?([0-9]+\.?[0-9]*|\.[0-9]+)([Ee][+-]?[0-9]+)?", s)) and ("." in s or "E" in s.upper())
 
 
 def real_queue(tmpl, v, w):
@@ -288,12 +307,12 @@ def shard(spec):
     d, pos_idx = spec
     name, tmpl, restrict = POSITIONS[pos_idx]
     acc = Acc()
-    if restrict == 1 and d in ("ODL", "PDS3"):
+    if restrict == 1 and d in ("ODL", "PDS3", "ODLsep", "PDS3sep"):
         return acc
-    for spelled in REALS + INTS:
+    for spelled in REALS + INTS + STRS:
         text = tmpl.format(v=spelled, w=ALT[spelled])
         for real, qty, cont in itertools.product(("float", "Decimal", "Rec", "Txt"), ("Quantity", "RecQ"), (False, True)):
-            if restrict == 2 and d in ("ODL", "PDS3"):
+            if restrict == 2 and d in ("ODL", "PDS3", "ODLsep", "PDS3sep"):
                 continue
             case = {"dialect": d, "text": text, "real": real, "qty": qty, "cont": cont,
                     "reals": real_queue(tmpl, spelled, ALT[spelled]), "position": name}
@@ -315,16 +334,16 @@ def shard(spec):
 def run(ctx):
     if not ctx.quick:
         POSITIONS.extend(composed_positions(3))      # module-level list: the forked workers inherit it
-    specs = [(d, i) for d in impl.DIALECTS for i in range(len(POSITIONS))]
+    specs = [(d, i) for d in FAMILIES for i in range(len(POSITIONS))]
     acc = ctx.pmap(shard, specs)
     cov = {
         "evaluations": acc.n, "distinct_nontrivial": acc.nontrivial,
         "states": len(acc.sets["pos"]), "transitions": acc.traces,
         "traces_validated_against_impl": acc.traces,
         "rule": "%d grammar positions (the curated ones; thorough adds every composition up to depth 3 of sequence-first / sequence-last / sequence-only / set-member contexts x bare | with units | units on the sequence x 5 block wrappers) x %d spellings (reals %r, integers %r) x 4 real classes (float, Decimal, a recording float subclass, a text-keeping class outside the numeric tower) x 2 quantity classes x "
-                "2 container-class sets x 5 parser/decoder families, full product; states = (position, "
+                "2 container-class sets x 11 parser/decoder families (the five configurations; four of them and pvl.loads again with grammar and decoder built separately; pvl.loads of bytes), full product; states = (position, "
                 "substitute combination); non-trivial = both configurations loaded and every node of the result "
-                "was type-checked and compared after mapping back" % (len(POSITIONS), len(REALS + INTS), REALS, INTS),
+                "was type-checked and compared after mapping back" % (len(POSITIONS), len(REALS + INTS + STRS), REALS, INTS + STRS),
         "outcome_histogram": dict(acc.outcomes),
         "samples": acc.samples[:6], "exhaustive": True,
     }
